@@ -115,9 +115,9 @@ Proof. exact find_host_route_natural. Qed.
 Print Assumptions C10_find_host_route_natural.
 (* a corpus case (corpus/C10/examples.case, "wf-example") is well-formed *)
 Example C10_wf_example :
-  wf_C10 (VL [VL [VL [VB [99;111;109]; VB []]];
-              VL [VL [VL [VL [VB [42;46;99;111;109]; VB [116]; VB [112]]]; VL []; VB [100]; VL [VL [VB [97;46;99;111;109]; VB []]]];
-                  VL [VL []; VL []; VB []; VL [VL [VB [97;46;99;111;109]; VB []]]]]]) = true.
+  wf_C10 (VL [VL [VL [VB [99;111;109]; VB []; VB []]];
+              VL [VL [VL [VL [VB [42;46;99;111;109]; VB [116]; VB [112]]]; VL []; VB [100]; VL [VL [VB [97;46;99;111;109]; VB []; VB []]]];
+                  VL [VL []; VL []; VB []; VL [VL [VB [97;46;99;111;109]; VB []; VB []]]]]]) = true.
 Proof. exact eq_refl. Qed.
 
 (* buildHostRoute ranges over a Go map, i.e. inserts in an unspecified order.  When the configured hosts are pairwise
@@ -129,6 +129,17 @@ Theorem C10_order_irrelevant : forall (tbl tbl' : list host_entry) host,
   find_host_route tbl host = find_host_route tbl' host.
 Proof. exact order_irrelevant. Qed.
 Print Assumptions C10_order_irrelevant.
+
+(* The VIP step matches on the ADDRESS VALUE: the observation for a session whose Vip is the 4-byte form a.b.c.d equals
+   the one for the 16-byte form ::ffff:a.b.c.d, and the textual form in which the vips are written in the file (v_text:
+   dotted, IPv4-mapped, compressed / uncompressed / upper-case IPv6, leading zeros) is irrelevant; only the parsed
+   address (v_addr) and, for LookupProductByVip(text), its canonical text (v_canon) matter.  (Holds for the model and
+   the specification alike: `full`/`byhost` are arbitrary.) *)
+Theorem C10_vip_by_address_value : forall full byhost tbl vs dflt host a b c d str f,
+  enc_query full byhost tbl (retext f vs) dflt (host, ([a; b; c; d], str)) =
+  enc_query full byhost tbl vs dflt (host, (V4_PREFIX ++ [a; b; c; d], str)).
+Proof. exact vip_by_address_value. Qed.
+Print Assumptions C10_vip_by_address_value.
 
 (* The lookup depends only on WHICH labels are equal: any injective relabelling f that fixes "*" (reversing the
    characters of each label byte-wise or rune-wise, or any other encoding), applied to the table and the request,
